@@ -398,11 +398,15 @@ pub fn length(params: &[Value]) -> NativeResult {
 ///
 /// Will return [`NativeError::WrongParameterCount`] if there is a mismatch in the supplied parameters.
 pub fn max(params: &[Value]) -> NativeResult {
+    if params.is_empty() {
+        return Err(NativeError::WrongParameterCount(1));
+    }
+
     smart_vec(params)
         .iter()
         .max()
         .cloned()
-        .ok_or(NativeError::WrongParameterCount(1))
+        .ok_or(NativeError::from("an empty array has no maximum"))
 }
 
 /// Returns the minimum [`Value`] of a all supplied parameters.
@@ -413,11 +417,15 @@ pub fn max(params: &[Value]) -> NativeResult {
 ///
 /// Will return [`NativeError::WrongParameterCount`] if there is a mismatch in the supplied parameters.
 pub fn min(params: &[Value]) -> NativeResult {
+    if params.is_empty() {
+        return Err(NativeError::WrongParameterCount(1));
+    }
+
     smart_vec(params)
         .iter()
         .min()
         .cloned()
-        .ok_or(NativeError::WrongParameterCount(1))
+        .ok_or(NativeError::from("an empty array has no minimum"))
 }
 
 /// Replaces all matches of a pattern with another value.
